@@ -133,8 +133,8 @@ func main() {
 	for i := 0; i < n; i++ {
 		rr := r.Fork()
 		var shape [][]int
-		if i < len(shapes)*8 {
-			shape = shapes[i/8]
+		if i < len(shapes)*9 {
+			shape = shapes[i/9]
 		}
 		files, uv, svcs := genUniverse(rr, shape)
 		// listed names: a random subset of the defined services, plus duplicates, invalid and administrative names
@@ -155,9 +155,9 @@ func main() {
 			k := rr.Intn(j + 1)
 			listed[j], listed[k] = listed[k], listed[j]
 		}
-		pol := []int{0, 1, 2, 3, 4, 5, 6, 7, 7, 1, 2}[rr.Intn(11)]
+		pol := []int{0, 1, 2, 3, 4, 5, 6, 7, 7, 1, 2, 8, 8}[rr.Intn(13)]
 		if shape != nil {
-			pol = i % 8
+			pol = i % 9
 		}
 		pols[pol]++
 		limit := 100
